@@ -564,9 +564,30 @@ def b_native(B):
         x = rng.standard_normal(n)
         if not np.allclose(F.dft(x), np.fft.rfft(x)):
             bad.append(("dft", n))
+        # explicit sample positions / coefficients that are not whole numbers: the definition sum_x x[x] exp(-2 pi i k x / ns)
+        xs_ = np.arange(n) + 0.5
+        ks_ = np.arange(2 * n) / 2
+        want = np.exp(-2j * np.pi / n * xs_[None, :] * ks_[:, None]) @ x
+        if not np.allclose(F.dft(x, xscale=xs_, kscale=ks_), want, atol=1e-9):
+            bad.append(("dft with half-integer positions / coefficients", n))
+        xi_ = np.sort(rng.uniform(0, n, n))
+        want = np.exp(-2j * np.pi / n * xi_[None, :] * np.arange(n)[:, None]) @ x
+        if not np.allclose(F.dft(x, xscale=xi_, kscale=np.arange(n)), want, atol=1e-9):
+            bad.append(("dft with irregular positions", n))
     B.case("dft_vs_fft", not bad, detail=bad[:5])
     # cosine taper
     fc = U.fcn_cosine([2.0, 5.0])
     xs = np.linspace(-1, 8, 500)
     ys = fc(xs.copy())
     B.case("cosine_monotone", bool(np.all(np.diff(ys) >= -1e-12) and ys[0] == 0 and np.isclose(ys[-1], 1) and np.all((ys >= 0) & (ys <= 1 + 1e-12))), detail="fcn_cosine not monotone 0..1")
+    # the same threshold on whole-number abscissae of any type (trace / sample indices): the same values as on floats
+    badc = []
+    for b_ in ([0, 7], [3, 12], [2.0, 5.0]):
+        for dt_ in (np.int64, np.int32, np.float32, np.float64):
+            xi = np.arange(-2, 16).astype(dt_)
+            got = np.asarray(U.fcn_cosine(b_)(xi.copy()), dtype=float)
+            ref = np.clip((xi.astype(float) - b_[0]) / (b_[1] - b_[0]), 0, 1)
+            want = (1 - np.cos(ref * np.pi)) / 2
+            if got.shape != want.shape or not np.allclose(got, want, atol=1e-6):
+                badc.append((b_, dt_.__name__, float(np.max(np.abs(got - want))) if got.shape == want.shape else "shape"))
+    B.case("cosine_on_integer_abscissae", not badc, detail=badc[:4])
